@@ -72,10 +72,16 @@ impl PathResolver for Recs {
         Value::Null
     }
     fn resolve_ref(&self, reference: &Ref) -> Option<Dict> {
+        // one pass, first match: a record answers to its `id`, a record without `id` to its `aka`
         self.recs
             .iter()
-            .find(|d| d.get_ref("id") == Some(reference))
-            .or_else(|| self.recs.iter().find(|d| !d.has("id") && d.get_str("aka").map(|s| s.value.as_str()) == Some(reference.value.as_str())))
+            .find(|d| {
+                if d.has("id") {
+                    d.get_ref("id") == Some(reference)
+                } else {
+                    d.get_str("aka").map(|s| s.value.as_str()) == Some(reference.value.as_str())
+                }
+            })
             .map(|d| if is_blank(d) { Dict::new() } else { d.clone() })
     }
 }
@@ -372,7 +378,7 @@ pub fn soup(rng: &mut Rng, n: usize) -> Vec<u8> {
     const TOKENS: &[&str] = &[
         " ", "  ", "\n", "\t", "\r\n", "and", "or", "not", "true", "false", "a", "b", "dis", "siteRef", "x1", "(", ")", "((", "))", "->", "-", ">", "=", "==", "!=", "!",
         "<", "<=", ">", ">=", "*==", "*", "?", "a?", "rel?", "^", "^sym", "^a:b", "^A", "@", "@r", "@r \"d\"", "@r \"", "@ ", "\"", "\"str\"", "\"a\\nb\"", "\"\\q\"",
-        "\"\\u00e9\"", "\"\\u12", "`", "`uri`", "`a\\#b`", "`\\", "0", "1", "12", "-3.5", "1e5", "1E-3", "1e", "1e+", "5kW", "5xyz", "100%", "1_000", "1.2.3", "-", "--1",
+        "\"\\u00e9\"", "\"\\u12", "`", "`uri`", "`a\\#b`", "`\\", "0", "1", "12", "-3.5", "1e5", "1E-3", "1e", "1e+", "1e3.0", "1e3.5", "1E-3.00000000000000000000000001", "1e0.99999999999999999999999", "1e-.5", "1e+-3", "5kW", "5xyz", "100%", "1_000", "1.2.3", "-", "--1",
         "-INF", "INF", "NaN", "1e999", "2021-03-04", "2021-13-04", "2021-03", "12:30:00", "12:30", "25:00:00", "12:30:00.123", "12:30:00.", "2021-03-04T12:30:00Z",
         "2021-03-04T12:30:00Z UTC", "2021-03-04T12:30:00-05:00 New_York", "2021-03-04T12:30:00-05:00 Nowhere", "2021-03-04T", "T", "Z", "é", "\u{1F600}", "$", "_", ".",
         ":", "/", "+", ",", "[", "]", "{", "}", "N", "M", "a->b", "a -> b", "a->", "->b", "a - > b", "\\", "\u{0}", "\u{7f}",
